@@ -17,8 +17,10 @@ import (
 	"math/rand"
 	"os"
 	"path/filepath"
+	"runtime"
 	"sort"
 	"strings"
+	"sync"
 
 	"github.com/corestario/kyber"
 	"github.com/corestario/kyber/pairing"
@@ -37,13 +39,13 @@ import (
 
 type algStats struct {
 	Ops, Ceremonies, Batches, SignaturesChecked, SharesChecked, SubsetsChecked int
-	C07Schedules, C07Races, C11Scenarios                                     int
-	C07Exhaustive                                                            string
-	Configs                                                                  []string
-	OutcomeHist                                                              map[string]int
-	Monitors                                                                 []string
-	Samples                                                                  []string
-	Notes                                                                    []string
+	C07Schedules, C07Races, C11Scenarios                                       int
+	C07Exhaustive                                                              string
+	Configs                                                                    []string
+	OutcomeHist                                                                map[string]int
+	Monitors                                                                   []string
+	Samples                                                                    []string
+	Notes                                                                      []string
 }
 
 func scalarHex(s kyber.Scalar) string {
@@ -382,12 +384,17 @@ func runAlgDiff(outDir string, seed int64, tier string) {
 	a := &algRun{st: &algStats{OutcomeHist: map[string]int{}}, ops: bufio.NewWriter(fo), obs: bufio.NewWriter(fb),
 		rng: rand.New(rand.NewSource(seed)), suit: bls12381.NewBLS12381Suite(nil).(pairing.Suite)}
 	type cfg struct{ n, t int }
-	cfgs := []cfg{{2, 2}, {3, 2}, {4, 3}, {5, 2}}
+	cfgs := []cfg{{2, 2}, {3, 2}, {4, 3}, {5, 2}, {3, 3}}
 	if tier == "thorough" {
 		cfgs = []cfg{{2, 2}, {3, 2}, {3, 3}, {4, 2}, {4, 3}, {4, 4}, {5, 2}, {5, 3}, {5, 5}, {6, 2}, {7, 3}, {8, 5}}
 	}
 	for ci, cf := range cfgs {
 		tag := fmt.Sprintf("(n=%d,t=%d)", cf.n, cf.t)
+		if os.Getenv("VERIF_PROGRESS") != "" {
+			var ms runtime.MemStats
+			runtime.ReadMemStats(&ms)
+			fmt.Fprintf(os.Stderr, "algdiff: %s starts, heap %d MB\n", tag, ms.HeapAlloc>>20)
+		}
 		dir, _ := os.MkdirTemp(outDir, "cer")
 		c, err := newCluster(dir, cf.n, "pw")
 		if err != nil {
@@ -452,20 +459,29 @@ func runAlgDiff(outDir string, seed int64, tier string) {
 				}
 				// C07: racing proposals, then schedules with slow signers (all of them for n=3,t=2 in the thorough tier)
 				a.raceProposals(c, round, secret, gk, cf.t, tag)
-				scheds := allSchedules(cf.n, cf.t)
-				pick := 4
-				if cf.n == 3 && cf.t == 2 {
-					pick = 16
+				var scheds []c07Schedule
+				if cf.n == 3 {
+					scheds = allSchedules(cf.n, cf.t)
+					pick := 16
 					if tier == "thorough" {
-						pick = len(scheds)
-						a.st.C07Exhaustive = fmt.Sprintf("all %d schedules of two batches for n=3,t=2", len(scheds))
+						pick = 40 // for (3,2) all of them are run by exhaustiveSchedules below, on fresh boards
 					}
-				} else if tier == "thorough" {
-					pick = 40
-				}
-				if pick < len(scheds) {
-					a.rng.Shuffle(len(scheds), func(i, j int) { scheds[i], scheds[j] = scheds[j], scheds[i] })
-					scheds = scheds[:pick]
+					if pick < len(scheds) {
+						a.rng.Shuffle(len(scheds), func(i, j int) { scheds[i], scheds[j] = scheds[j], scheds[i] })
+						scheds = scheds[:pick]
+					}
+				} else if cf.n > 3 {
+					pick := 4
+					if tier == "thorough" {
+						pick = 40
+					}
+					scheds = sampleSchedules(a.rng, cf.n, cf.t, pick)
+				} else {
+					scheds = allSchedules(cf.n, cf.t)
+					if len(scheds) > 4 {
+						a.rng.Shuffle(len(scheds), func(i, j int) { scheds[i], scheds[j] = scheds[j], scheds[i] })
+						scheds = scheds[:4]
+					}
 				}
 				for k, sc := range scheds {
 					a.runSchedule(c, round, secret, gk, sc, k, tag)
@@ -474,6 +490,9 @@ func runAlgDiff(outDir string, seed int64, tier string) {
 		}
 		c.close()
 		os.RemoveAll(dir)
+	}
+	if tier == "thorough" {
+		a.exhaustiveSchedules(outDir, 3, 2)
 	}
 	a.c11Run(outDir, tier)
 	a.ops.Flush()
@@ -520,4 +539,94 @@ func (c *cluster) pumpShuffled(rng *rand.Rand, maxRounds int) (errs []string) {
 	}
 	errs = append(errs, "pump: no quiescence")
 	return
+}
+
+// exhaustiveSchedules runs every schedule of two batches for (n,t). A board is re-read from its start by every poll,
+// so one long-lived board makes the run quadratic: the schedules are cut into chunks, each chunk on its own freshly
+// generated key, and the chunks run side by side. Lines and monitors are merged in chunk order.
+func (a *algRun) exhaustiveSchedules(outDir string, n, t int) {
+	scheds := allSchedules(n, t)
+	const chunk = 48
+	type part struct {
+		ops, obs bytes.Buffer
+		st       *algStats
+	}
+	nparts := (len(scheds) + chunk - 1) / chunk
+	parts := make([]*part, nparts)
+	seeds := make([]int64, nparts)
+	for i := range seeds {
+		seeds[i] = a.rng.Int63()
+	}
+	sem := make(chan struct{}, 12)
+	var wg sync.WaitGroup
+	for pi := 0; pi < nparts; pi++ {
+		pi := pi
+		parts[pi] = &part{st: &algStats{OutcomeHist: map[string]int{}}}
+		wg.Add(1)
+		sem <- struct{}{}
+		go func() {
+			defer wg.Done()
+			defer func() { <-sem }()
+			p := parts[pi]
+			sub := &algRun{st: p.st, ops: bufio.NewWriter(&p.ops), obs: bufio.NewWriter(&p.obs),
+				rng: rand.New(rand.NewSource(seeds[pi])), suit: bls12381.NewBLS12381Suite(nil).(pairing.Suite)}
+			defer sub.ops.Flush()
+			defer sub.obs.Flush()
+			tag := fmt.Sprintf("(n=%d,t=%d) exhaustive part %d", n, t, pi)
+			dir, _ := os.MkdirTemp(outDir, "exh")
+			defer os.RemoveAll(dir)
+			c, err := newCluster(dir, n, "pw")
+			if err != nil {
+				sub.mon("C07 harness: " + err.Error())
+				return
+			}
+			defer c.close()
+			round, err := c.startDKG(t)
+			if err != nil {
+				sub.mon("C07 harness " + tag + ": " + err.Error())
+				return
+			}
+			c.pumpShuffled(sub.rng, 60)
+			sub.st.Ceremonies++
+			for i, nd := range c.nodes {
+				if st := c.roundState(nd, round); st != "stage_signing_idle" {
+					sub.mon(fmt.Sprintf("C02 honest_dkg_completes %s: node %d ended key generation in %s", tag, i, st))
+					return
+				}
+			}
+			secret, gk, ok := sub.dkgAlgebra(c, round, n, t)
+			if !ok {
+				return
+			}
+			lo, hi := pi*chunk, (pi+1)*chunk
+			if hi > len(scheds) {
+				hi = len(scheds)
+			}
+			for k := lo; k < hi; k++ {
+				sub.runSchedule(c, round, secret, gk, scheds[k], k, tag)
+			}
+		}()
+	}
+	wg.Wait()
+	done := 0
+	for _, p := range parts {
+		a.ops.Write(p.ops.Bytes())
+		a.obs.Write(p.obs.Bytes())
+		a.st.Ops += p.st.Ops
+		a.st.Ceremonies += p.st.Ceremonies
+		a.st.Batches += p.st.Batches
+		a.st.SignaturesChecked += p.st.SignaturesChecked
+		a.st.SharesChecked += p.st.SharesChecked
+		a.st.SubsetsChecked += p.st.SubsetsChecked
+		a.st.C07Schedules += p.st.C07Schedules
+		done += p.st.C07Schedules
+		for k, v := range p.st.OutcomeHist {
+			a.st.OutcomeHist[k] += v
+		}
+		for _, m := range p.st.Monitors {
+			a.mon(m)
+		}
+		a.st.Notes = append(a.st.Notes, p.st.Notes...)
+	}
+	a.st.C07Exhaustive = fmt.Sprintf("%d of all %d schedules of two batches for n=%d,t=%d, in %d parts each on a freshly generated key", done, len(scheds), n, t, nparts)
 }
